@@ -55,6 +55,37 @@ def rand_text_spec(rng, profile, max_len=None):
     return spec
 
 
+def rand_title_text(rng, p=0.2):
+    """None (the title is a str, parsed as markup) or the options of a Text title (taken literally): a Text has a
+    justify / overflow / style of its own, may contain tabs and line breaks."""
+    if rng.random() >= p:
+        return None
+    return {"s": rng.choice(["T", "a title", "tab\there", "two\nlines", "ends\n", "漢字 title", "a very long title " * 3,
+                             "[not markup]"]),
+            "justify": rng.choice([None, None, "left", "center", "right", "full"]),
+            "overflow": rng.choice([None, None, "fold", "crop", "ellipsis", "ignore"]),
+            "style": rng.choice([None, "bold", "on red"])}
+
+
+def build_title(spec):
+    tt = spec.get("title_text")
+    if not tt:
+        return spec["title"]
+    from rich.text import Text
+    return Text(tt["s"], justify=tt["justify"], overflow=tt["overflow"], style=tt["style"] or "")
+
+
+def title_plain(spec):
+    """The characters of the title as shown (line breaks become spaces; tabs are expanded by the panel)."""
+    tt = spec.get("title_text")
+    if tt:
+        return tt["s"].replace("\n", " ")
+    if not spec["title"]:
+        return ""
+    from rich.text import Text
+    return Text.from_markup(spec["title"]).plain.replace("\n", " ")
+
+
 def gen_spec(rng, depth=3, profile=None, inline_ok=True):
     """inline_ok: a spec that `ends inline` (a ProgressBar emits no newline) is allowed here."""
     profile = profile or {}
@@ -131,7 +162,8 @@ def _gen_spec(rng, depth, profile, inline_ok):
                 "expand": rng.random() < 0.6,
                 "width": rng.choice([None, None, None, 10, 30, 250]),
                 "padding": rand_pad(rng), "safe_box": rng.choice([None, True, False]),
-                "style": G.definition(G.rand_record(rng, p_attr=0.1)) if rng.random() < 0.2 else "none"}
+                "style": G.definition(G.rand_record(rng, p_attr=0.1)) if rng.random() < 0.2 else "none",
+                "title_text": rand_title_text(rng)}
     if k == "padding":
         return {"k": "padding", "child": gen_spec(rng, depth - 1, profile, inline_ok=False),
                 "pad": rand_pad(rng, small=False), "expand": rng.random() < 0.6}
@@ -318,10 +350,10 @@ def build(spec):
         from rich.panel import Panel
         from rich import box
         if not spec["expand"] and _alt(spec, 2) == 0:
-            return Panel.fit(build(spec["child"]), getattr(box, spec["box"]), title=spec["title"],
+            return Panel.fit(build(spec["child"]), getattr(box, spec["box"]), title=build_title(spec),
                              title_align=spec["title_align"], width=spec["width"], padding=spec["padding"],
                              safe_box=spec.get("safe_box"), style=spec.get("style", "none"), **spec.get("decor", {}))
-        return Panel(build(spec["child"]), getattr(box, spec["box"]), title=spec["title"],
+        return Panel(build(spec["child"]), getattr(box, spec["box"]), title=build_title(spec),
                      title_align=spec["title_align"], expand=spec["expand"], width=spec["width"],
                      padding=spec["padding"], safe_box=spec.get("safe_box"), style=spec.get("style", "none"),
                      **spec.get("decor", {}))
@@ -446,7 +478,7 @@ def all_strings(spec):
         yield spec["title"]
         yield spec["characters"]
     elif k == "panel":
-        yield spec["title"] or ""
+        yield (spec["title_text"]["s"] if spec.get("title_text") else spec["title"]) or ""
         yield from all_strings(spec["child"])
     elif k in ("padding", "align", "constrain", "styled", "nomeasure", "richcast", "ctrl"):
         yield from all_strings(spec["child"])
@@ -536,7 +568,7 @@ def structural_min(spec, c=None):
         return structural_min(spec["child"], c) + l + r
     if k == "panel":
         _, r, _, l = unpack_pad(spec["padding"])
-        return max(structural_min(spec["child"], c) + 2 + l + r, 4 if spec["title"] else 2)
+        return max(structural_min(spec["child"], c) + 2 + l + r, 4 if (spec["title"] or spec.get("title_text")) else 2)
     if k in ("align", "constrain", "styled", "nomeasure", "richcast", "ctrl"):
         return structural_min(spec["child"], c)
     if k == "group":
